@@ -34,6 +34,9 @@ def main() -> int:
         return 2
     env.install()
     env.scratch_dir()
+    from vf import e1
+
+    e1.prepare()  # threading shim (inline threads outside a scheduler) + SQLite proxy/pool
     if args.replay:
         with open(args.replay) as f:
             payload = json.load(f)
